@@ -7,7 +7,7 @@
    the object through the public API and compares the real file, the re-read object and the
    re-written bytes.                                                                          *)
 EXTENDS Naturals, Sequences, FiniteSets, TLC, Json
-CONSTANT Slice
+CONSTANTS Slice, MaxNodes
 Paths  == {<<"A">>, <<"B">>, <<"A", "o">>, <<"A", "h">>, <<"A", "o", "h">>, <<"B", "o">>}
 Types  == {"variant", "optional", "addon", "layered-product"}
 Arches == {"x", "y"}
@@ -34,7 +34,7 @@ vars == <<nodes, typ, ar, pth, dashed, dashkid, sec>>
 \* an arch outside ar[p] is a "foreign" assignment
 Init ==
   CASE Slice = "forest" ->
-         /\ nodes \in ShapesUpTo(4) /\ typ \in [nodes -> Types]
+         /\ nodes \in ShapesUpTo(MaxNodes) /\ typ \in [nodes -> IF Cardinality(nodes) <= 4 THEN Types ELSE {"variant", "layered-product"}]
          /\ ar = [p \in nodes |-> {"x"}] /\ pth = [p \in nodes |-> {}] /\ dashed \in BOOLEAN /\ sec = DefaultSec
          /\ dashkid \in BOOLEAN /\ (dashkid => dashed /\ Cardinality(nodes) <= 2)      \* the dashed top-level variant has a child "o"
     [] Slice = "arches" ->
